@@ -88,6 +88,16 @@ def run(ctx):
     for fn, ok, where, wit in tf:
         r2.check(ok, "no-torn-write:" + fn.split("::")[-2], "a timed-out mirror write marks that connection bad", "the mirror task abandons a write after a timeout and keeps using the connection: the mirror receives a prefix of one request with the next request glued to it", where, wit)
     r2.check(True, "mirror-writes-not-cancelled", "%d timeout-wrapped server I/O site(s) in the mirror task" % len(tf))
+    # ... and Server::mirror_send hands the manager the very buffer it was given, once: the manager drops a whole entry when a mirror's channel is full, so an
+    # entry has to be a whole request - a request handed over in pieces loses a piece on overflow and the mirror reads the following requests as its missing body
+    msb = ctx.body(MSEND, r2)
+    if msb:
+        mcalls = msb.calls(MM + "send")
+        okp = bool(mcalls) and all({(o.kind, o.what) for o in origins(msb, c.args[1]) if o.kind in ("param", "call", "agg")} == {("param", 2)} for c in mcalls)
+        inloop = [c for c in mcalls if any(c.block in natural_loop(msb, hd) for hd in loop_headers(msb))]
+        r2.check(okp and not inloop, "manager-gets-the-whole-request", "mirror_send passes its own `bytes` argument to MirroringManager::send, once",
+                 "mirror_send hands MirroringManager::send something else than the request it was given (a slice, a chunk, a copy built in a loop): what the manager drops when a mirror lags is then a piece of a request, "
+                 "and the mirror receives a byte stream that is not a sequence of whole requests", (inloop or mcalls or [None])[0].where() if (inloop or mcalls) else "")
     # ---------------- R3
     r3 = ctx.rule("C20-R3", "the mirror is isolated: it runs in its own task with its own bb8 pool (max_size constant) and a private cancel map; it does not touch the client, POOLS or the parent server", floor=4)
     sb = ctx.body(START, r3)
